@@ -29,3 +29,24 @@ reg("C06",
     "Each terminal state is compiled by real rustc against the repository's proc-macro and executed; the recorded write_* sequence for every value of the enumerated domain must equal the concatenation of the reference-selected effective inputs, and for all same-variant pairs feeds are equal iff the reference effective-input vectors are equal. Exhaustive within the bound, never sampled.",
     "Bound: 112 combinations x 4 trait sets x 3 (quick) / 16 (thorough) container positions x 2 entry points; multi-field shapes with 1..3/4 fields over a 7-letter alphabet; I4 (no discriminant in the feed).",
     "DESIGN.md 5/C06")
+
+reg("C07",
+    "bounded exhaustive enumeration of struct/enum shapes x field flavours x entry points, compiled with the real proc-macro and executed on every variant and ALL ordered variant pairs with call-recording field types, against the reference clone / clone_from traces",
+    "Each shape is compiled by real rustc against the repository's proc-macro and executed; the log of Clone::clone / clone_from calls (with unique field identities), the resulting value and the untouched source are compared with the reference for clone of every variant and clone_from of every ordered pair of variants. A program that fails to compile is a violation. Exhaustive within the shape bound.",
+    "Bound: quick Sh(3 variants, 2 fields), thorough Sh(4, 3); flavours: concrete Rec fields, generic X<T> (T / RecG<T>), derive_ex(Copy, Clone) with Copy + logging-Clone fields; non-alphabetical field names.",
+    "DESIGN.md 5/C07")
+reg("C08",
+    "exhaustive enumeration of the 22 operator traits x struct body shapes x field flavours x entry points, compiled with the real proc-macro and executed on all 9 operand pairs in every owned/reference form, against the field-wise reference",
+    "Each case is compiled by real rustc against the repository's proc-macro and executed; results, per-field call logs with (lhs_is_ref, rhs_is_ref) and the unchanged borrowed operands are compared with the reference for every form of the trait. A program that fails to compile is a violation. Exhaustive within the bound.",
+    "Bound: quick 6 body shapes, thorough all 11 (0..4 fields); flavours Fm (free monoid recording operand order), generic T := Fm, Wrapping<i8> (non-shift operators).",
+    "DESIGN.md 5/C08")
+reg("C09",
+    "exhaustive enumeration of operators x base forms of the user impl x Rhs spellings x requested sets x generic/non-generic, compiled with the real proc-macro and executed on all 9 operand pairs in every generated form, against the forwarding reference",
+    "Each case is compiled by real rustc against the repository's proc-macro and executed; results, the multiset of user-impl calls and operand clones, and unchanged borrowed operands are compared with the reference for every form that must exist. A program that fails to compile is a violation (generics, where-clause, Output and Self carry-over). Exhaustive within the bound.",
+    "Bound: quick Sub and Shl in full + the other 8 operators on the owned base with {Op, OpAssign}; thorough the full product (800 cases).",
+    "DESIGN.md 5/C09")
+reg("C10",
+    "bounded exhaustive enumeration of shapes x per-field marks {plain, ignore, transparent} x generic x entry points, compiled with the real proc-macro and executed on every value x 14 format specs against a std-derived twin; rejection of two transparent fields checked on the in-process expander",
+    "Each case is compiled by real rustc against the repository's proc-macro and executed; for every value of the per-field domains and each of 14 formatter-flag combinations the string must equal what #[derive(Debug)] prints for the twin with the ignored fields deleted (or the transparent field alone). Cases with two transparent fields in one struct/variant must be rejected by the expander. Exhaustive within the bound.",
+    "Bound: quick Sh(2,2) with <=2 marked fields, thorough Sh(3,3) with <=3 marked fields (<=6 fields in 3-variant enums); field types i32 / &str / f64 / nested struct; transparent+ignore on one field is only explored where unambiguous (rejection).",
+    "DESIGN.md 5/C10")
